@@ -74,6 +74,8 @@ def gen(rng, tier, shape=None):
                 evs.append(["op", s, rng.randrange(nobj)])
         tests.append(evs)
     flags = sorted(c for c in common.CATS if rng.random() < 0.5)
+    if rng.random() < 0.3:
+        flags = sorted(common.CATS)          # everything approved: the second identical run must be a no-op (C08)
     wrap = rng.random() < 0.35
     if wrap:
         for s_ in sites:
@@ -178,7 +180,12 @@ def run_impl(case):
             finals[i] = final_sx(v, case["sites"][i]["role"])
     except Exception as e:  # noqa: BLE001
         finals = {"syntax_error": str(e)}
-    return {"R": obs["R"][0][1] if obs["R"] else None, "tests": obs["tests"], "sites": sites, "finals": finals,
+    second = None
+    if set(case["approved"]) == set(common.CATS) and not obs["collect_errors"] and not obs["apply_error"] and after:
+        o2 = impl_inline.run_program({"test_case.py": after}, case["flags"], case["approved"])
+        second = {"changed": o2["files_after"].get("test_case.py", "") != after, "cats": sorted({c for s_ in o2["sites"] for c in s_["cats"]}),
+                  "errors": [o2["import_error"], o2["apply_error"], o2["collect_errors"]]}
+    return {"second": second, "R": obs["R"][0][1] if obs["R"] else None, "tests": obs["tests"], "sites": sites, "finals": finals,
             "raw": raw, "observed": {str(k): v for k, v in observed.items()}, "src": src, "after": after,
             "collect_errors": obs["collect_errors"], "apply_error": obs["apply_error"], "import_error": obs["import_error"]}
 
@@ -195,6 +202,12 @@ def oracle(case, obs):
     if obs["collect_errors"] or obs["apply_error"] or "syntax_error" in obs["finals"]:
         return fails
     approved = set(case["approved"])
+    sec = obs.get("second")
+    if sec and not any(sec["errors"]):
+        # deterministic test (same mutations every run): after a run with everything approved nothing is left to do
+        if sec["changed"] or ({"create", "fix", "trim"} & set(sec["cats"])):
+            fails.append(("C08", "rerun_noop", f"after a run with all categories approved the same run again reports {sec['cats']} and "
+                          f"{'changes' if sec['changed'] else 'does not change'} the file; first run wrote {obs['raw']!r}"))
     for i, s in enumerate(case["sites"]):
         seen = obs["observed"].get(str(i), [])
         if not seen:
